@@ -468,6 +468,41 @@ Proof.
   repeat apply no_forbidden_app; try assumption; try reflexivity. apply clean_no_forbidden.
 Qed.
 
+(* the exception arm *)
+Lemma is_ws_false c : is_ws c = false -> (c =? 13) = false /\ (c =? 10) = false.
+Proof.
+  intros H. split.
+  - destruct (c =? 13) eqn:E; [apply Z.eqb_eq in E; subst; discriminate H|reflexivity].
+  - destruct (c =? 10) eqn:E; [apply Z.eqb_eq in E; subst; discriminate H|reflexivity].
+Qed.
+
+Definition no_nul (l : list Z) : Prop := forallb (fun c => negb (c =? 0)) l = true.
+
+Lemma collapse_no_forbidden l : forall a b, no_nul l -> no_forbidden (collapse a b l).
+Proof.
+  unfold no_nul, no_forbidden. induction l as [|c t IH]; intros a b H; [reflexivity|].
+  cbn [forallb] in H. apply andb_prop in H as [Hc Ht]. apply negb_true_iff in Hc.
+  cbn [collapse]. destruct (is_ws c) eqn:W; [apply IH, Ht|].
+  destruct (is_ws_false c W) as [H13 H10].
+  assert (Hf : negb (is_forbidden c) = true).
+  { unfold is_forbidden. rewrite H13, H10, Hc. reflexivity. }
+  rewrite forallb_app, (IH true false Ht), andb_true_r.
+  destruct (a && b); cbn [forallb]; rewrite Hf; reflexivity.
+Qed.
+
+Lemma exc_line_complete tag text rest : no_forbidden tag -> no_nul text ->
+  read_text_line (exc_line tag text ++ rest) =
+  Some (tag ++ [SP] ++ EXC_PREFIX ++ ws_collapse text, rest).
+Proof.
+  intros Ht Hn. unfold exc_line.
+  replace (tag ++ [SP] ++ EXC_PREFIX ++ ws_collapse text ++ CRLF)
+    with ((tag ++ [SP] ++ EXC_PREFIX ++ ws_collapse text) ++ CRLF)
+    by (rewrite <- !app_assoc; reflexivity).
+  apply read_text_line_ok.
+  repeat apply no_forbidden_app; try assumption; try reflexivity.
+  apply collapse_no_forbidden, Hn.
+Qed.
+
 (* ------------------------------------------------------------------ the unrepaired formatters fail *)
 Lemma refuted_old_quote :
   exists b, needs_literal b = false /\ read_string (enc_string_old b) <> Some (b, []).
